@@ -147,6 +147,54 @@ class Gen:
             moments.append([cond(2)])
         return moments
 
+    def sibling_template(self, code):
+        """two sub-circuits standing side by side in the body of an outer loop: the first measures, the second holds a condition on
+        that key.  Whether the condition binds to the sibling's measurement depends on whether the sibling adds a scope of its own
+        (repetition ids / parent path); 10 binary options, enumerated."""
+        bits = [code]
+
+        def flag():
+            b = bits[0] & 1
+            bits[0] >>= 1
+            return bool(b)
+
+        name = 'a'
+
+        def meas(q):
+            i = self.next_id; self.next_id += 1
+            self.gates[i] = ('meas', None)
+            return {'op': {'id': i, 'q': [q], 'mkey': {'path': [], 'name': name}, 'conds': []}}
+
+        def cond(q, index=-1):
+            i = self.next_id; self.next_id += 1
+            self.gates[i] = ('xpow', 1.0)
+            return {'op': {'id': i, 'q': [q], 'mkey': None, 'conds': [{'key': {'path': [], 'name': name}, 'index': index}]}}
+
+        def u(q):
+            i = self.next_id; self.next_id += 1
+            self.gates[i] = ('xpow', round(0.05 + i * 0.013, 6))
+            return {'op': {'id': i, 'q': [q], 'mkey': None, 'conds': []}}
+
+        def loop(body, reps, ids, parent=None):
+            return {'sub': {'body': body, 'reps': reps, 'qmap': [], 'kmap': [], 'rep_ids': [f'{ids}{k}' for k in range(reps)] if ids else None,
+                            'parent_path': parent or []}}
+
+        first = loop([[u(0)], [meas(0)]], 2 if flag() else 1, 's' if flag() else None, parent=['p'] if flag() else None)
+        if flag():
+            first = loop([[first]], 1, None)                       # the measurement sits one (scope-less) level deeper
+        second_body = [[cond(2, 0 if flag() else -1)], [u(2)]]
+        second = loop(second_body, 1, 't' if flag() else None)
+        if flag():
+            second = loop([[u(1)], [second]], 1, None)             # the condition sits one level deeper
+        body = [[first], [second]]
+        if flag():
+            body.insert(0, [meas(1)])                              # the key is also measured directly in the shared body
+        if flag():
+            body.append([cond(1)])                                 # and a condition stands in the shared body, after both
+        outer_ids = flag()
+        outer = loop(body, 2 if outer_ids else 1, 'o' if outer_ids else None)
+        return [[outer]]
+
     def single_qubit_template(self):
         """a sub-circuit confined to one qubit (the fast path of CircuitOperation._unitary_) with any repetition count"""
         r = self.rng
@@ -525,11 +573,24 @@ def run(ctx: common.Run):
         # every wire (qubit, measurement / control key) is that of the specified flat list
         if has_sub and not any(x.get('sub', {}).get('conds') for m in moments for x in m) and len({f['id'] for f in spec}) == len(spec):  # (operations identified by their id: no repeated bodies)
             def wired(flat):
+                # every reader of a key has a private wire that the writers of the key touch too (readers of one key are independent of
+                # each other); writers of a key share a wire
+                readers = {}
+                for f in flat:
+                    for c in f['conds']:
+                        readers.setdefault((tuple(c['key']['path']), c['key']['name']), []).append(f['id'])
                 seen, out = {}, []
                 for f in flat:
                     seen[f['id']] = seen.get(f['id'], 0) + 1
-                    keys = ([(tuple(f['mkey']['path']), f['mkey']['name'])] if f['mkey'] else []) + [(tuple(c['key']['path']), c['key']['name']) for c in f['conds']]
-                    out.append({'id': f['id'] * 1000 + seen[f['id']], 'wires': sorted(f['q']) + sorted(100 + key_index.setdefault(k, len(key_index)) for k in set(keys))})
+                    ws = set()
+                    for c in f['conds']:
+                        ws.add(((tuple(c['key']['path']), c['key']['name']), 'r', f['id']))
+                    if f['mkey']:
+                        k = (tuple(f['mkey']['path']), f['mkey']['name'])
+                        ws.add((k, 'w'))
+                        for rid in readers.get(k, []):
+                            ws.add((k, 'r', rid))
+                    out.append({'id': f['id'] * 1000 + seen[f['id']], 'wires': sorted(f['q']) + sorted(100 + key_index.setdefault(w_, len(key_index)) for w_ in ws)})
                 return out
             for uname in ('unroll_circuit_op_greedy_earliest', 'unroll_circuit_op_greedy_frontier'):
                 key_index = {}
@@ -633,6 +694,10 @@ def run(ctx: common.Run):
     for code in codes:
         g = Gen(rng)
         ecases.append((g, g.scoped_template(code)))
+    # (5b) sibling sub-circuits under a shared loop body (10 binary options, always all of them)
+    for code in range(1024):
+        g = Gen(rng)
+        ecases.append((g, g.sibling_template(code)))
     eouts = ctx.driver.ask([{'p': 'C12', 'op': 'unroll', 'moments': m} for _, m in ecases])
     for (g, moments), spec in zip(ecases, eouts):
         b = Builder(cirq, g.gates)
